@@ -93,6 +93,12 @@ add('C14', 'model_checking',
     "relational symbolic execution of API call histories on shared symbolic statistics (UF terms, z3), snapshot comparison of caller-owned objects, byte-level replay through the public API",
     'DESIGN.md 3/C14')
 
+add('C18', 'model_checking',
+    "The real compare_model / ComparisonResult.add_new_signature_results / tfl_interpreter_utils / validation_utils run with two fake interpreters (reference = skeleton, target = its really quantized version or itself) whose runtime tensors are fresh SYMBOLIC arrays per (model, sample, tensor). For every tensor name present in both main subgraphs: exactly one entry, in the right one of the four groups, whose value term-equals mean_k metric(dequantize(target_k), reference_k) with an independent spec dequantization of the right partner tensor (quantized int8 inputs included); test data untouched; no exception from the partition (tensor that is both input and output). Metric laws decided bit-precisely for float32 arrays of 1..3 elements: mse(x,x)=0, mse>=0 and not NaN, mse symmetric (lemma chain: fl(a-b) = -fl(b-a) or both NaN/zero; equal squares), median_diff_ratio(x,x)=0 and >=0.",
+    "Assumes: interpreters' tensors arbitrary (FFI not modelled; contract of the fake validated against the real interpreter); module-level float() rebound to keep symbolic scalars; wiring obligations under uninterpreted float ops; 8 skeletons (16 thorough) x {a8w8, weight-only, self} x both metrics x 1-2 samples.",
+    "symbolic execution of the real validator over symbolic tensor contents (UF terms, z3) + bit-precise (QF_FP) lemma chains for the metric laws; replay on the real interpreters via compare_model",
+    'DESIGN.md 3/C18')
+
 def write():
   m = {
    'version': 1,
